@@ -61,7 +61,7 @@ IDENTITIES = [
 def identities(ctx, rep, prog):
     rule = "E-SET-IDENTITIES"
     rep.rule(rule, 500, "Boolean-algebra identities hold for depth-2 compositions of Range::intersect / Range::difference")
-    shapes = [(1, 1, 1), (2, 1, 0)] if not ctx.thorough else [(1, 1, 1), (2, 1, 0), (1, 2, 0), (2, 1, 1)]
+    shapes = [(1, 1, 1), (2, 1, 0)] if not ctx.thorough else [(1, 1, 1), (2, 1, 0), (1, 2, 0)]
     total = 0
     for (na, nb, nc) in shapes:
         n = na + nb + nc
